@@ -213,6 +213,14 @@ def e_dec2bin(c):
             r = lib(U.dec2bin, v, d)
             ok = isinstance(r, np.ndarray) and r.shape == (d,) and r.dtype == np.uint8 and np.array_equal(r, (v >> shifts) & 1)
             check(ok, "dec2bin!=big-endian", f"dec2bin({v},{d}) = {r!r}")
+            if v % 13 == 0 or v < 4:
+                # the caller owns the result: scribbling on it must not change what a later call returns
+                try:
+                    r ^= 1
+                except ValueError:
+                    raise Violation("dec2bin-result-not-writable", f"dec2bin({v},{d})") from None
+                r2 = lib(U.dec2bin, v, d)
+                check(np.array_equal(r2, (v >> shifts) & 1) and not np.shares_memory(r, r2), "dec2bin-results-alias-each-other", f"dec2bin({v},{d}) after the previous result was modified: {r2!r}")
         # numpy integer input on a sample
         for v in {0, 1, 2 ** d - 1, (2 ** d) // 3}:
             r = lib(U.dec2bin, np.int64(v), d)
@@ -292,7 +300,14 @@ def e_s2a(c):
         if len({len(x) for x in digits}) != 1:  # rows with different digit counts cannot form an array
             return {"nontrivial": False, "classes": ["ragged-bits-skipped"]}
     if dt is None:
+        r0 = lib(U.str2array, text)
+        if r0.size:                      # the caller owns the result: a later identical call returns a fresh, correct array
+            try:
+                r0[...] = ~r0 if r0.dtype == np.bool_ else r0 + 1
+            except ValueError:
+                raise Violation("str2array-result-not-writable", repr(text)) from None
         r = lib(U.str2array, text)
+        check(not np.shares_memory(r, r0), "str2array-results-alias-each-other", repr(text))
         if only01:
             digits = [[int(ch) for ch in line if ch in "01"] for line in text.split(";")]
             if len({len(x) for x in digits}) != 1:
@@ -424,9 +439,10 @@ def e_si(c):
     err = abs(Fraction(mant) * scale - X)
     bound = Fraction(1, 2) * Fraction(10) ** (-k) * scale * (1 + Fraction(1, 10 ** 9))
     check(err <= bound, "si-mantissa*prefix!=x", f"si({x!r},{unit!r},{k}) -> {out!r}: |{mant}e{p} - x| = {float(err):.3e} > {float(bound):.3e}")
-    um = X / scale
-    check(Fraction(1) * (1 - Fraction(1, 10 ** 9)) <= um < Fraction(1000) * (1 + Fraction(1, 10 ** 9)), "si-mantissa-range",
-          f"si({x!r}) -> {out!r}: unrounded mantissa {float(um)!r} not in [1,1000)")
+    # unrounded mantissa in [1, 1000): decided with the decade boundaries as the floats they are (x and 10^p are both doubles, so
+    # the comparison 1e<p> <= x < 1e<p+3> is exact and needs no tolerance; nextafter(1e3, 0) must still print without prefix)
+    lo_, hi_ = float("1e%d" % p), float("1e%d" % (p + 3))
+    check(lo_ <= x and (x < hi_ or p == 12), "si-mantissa-range", f"si({x!r}) -> {out!r}: x is not in [1e{p}, 1e{p + 3})")
     return {"nontrivial": c["mode"] != "log" or k != 1, "classes": [c["mode"], f"prefix:{pre or '-'}"]}
 
 
